@@ -360,9 +360,9 @@ func TestFindings(t *testing.T) {
 }
 
 func TestRandom(t *testing.T) {
-	chkLookup.Rapid(t, harness.Pick(4000, 30000))
-	chkReadback.Rapid(t, harness.Pick(500, 5000))
-	chkBuilder.Rapid(t, harness.Pick(1500, 10000))
+	chkLookup.Rapid(t, harness.Pick(4000, 300000))
+	chkReadback.Rapid(t, harness.Pick(500, 50000))
+	chkBuilder.Rapid(t, harness.Pick(1500, 100000))
 }
 
 func TestBitSweep(t *testing.T) {
